@@ -69,32 +69,47 @@ impl BufferedWriter for HtmlWriter {
     }
 }
 
+/// Appends `buf` to `buffer`, HTML-escaping `&`, `<` and `>` byte-wise (this is
+/// safe for UTF-8 input, since these are ASCII characters). The text written to a
+/// `HtmlWriter` includes source code quoted in diagnostics, i.e. user input.
+fn write_escaped(buffer: &mut Vec<u8>, buf: &[u8]) -> std::io::Result<usize> {
+    for &byte in buf {
+        match byte {
+            b'&' => buffer.extend_from_slice(b"&amp;"),
+            b'<' => buffer.extend_from_slice(b"&lt;"),
+            b'>' => buffer.extend_from_slice(b"&gt;"),
+            _ => buffer.push(byte),
+        }
+    }
+    Ok(buf.len())
+}
+
 impl std::io::Write for HtmlWriter {
     fn write(&mut self, buf: &[u8]) -> std::io::Result<usize> {
         if let Some(color) = &self.color {
             if color.fg() == Some(&Color::Red) {
                 self.buffer
                     .write_all("<span class=\"numbat-diagnostic-red\">".as_bytes())?;
-                let size = self.buffer.write(buf)?;
+                let size = write_escaped(&mut self.buffer, buf)?;
                 self.buffer.write_all("</span>".as_bytes())?;
                 Ok(size)
             } else if color.fg() == Some(&Color::Blue) {
                 self.buffer
                     .write_all("<span class=\"numbat-diagnostic-blue\">".as_bytes())?;
-                let size = self.buffer.write(buf)?;
+                let size = write_escaped(&mut self.buffer, buf)?;
                 self.buffer.write_all("</span>".as_bytes())?;
                 Ok(size)
             } else if color.bold() {
                 self.buffer
                     .write_all("<span class=\"numbat-diagnostic-bold\">".as_bytes())?;
-                let size = self.buffer.write(buf)?;
+                let size = write_escaped(&mut self.buffer, buf)?;
                 self.buffer.write_all("</span>".as_bytes())?;
                 Ok(size)
             } else {
-                self.buffer.write(buf)
+                write_escaped(&mut self.buffer, buf)
             }
         } else {
-            self.buffer.write(buf)
+            write_escaped(&mut self.buffer, buf)
         }
     }
 
